@@ -16,6 +16,7 @@ import Proofs.DodsSrc
 import Proofs.XdrStream
 import Proofs.XdrFuel
 import Proofs.XdrNoFuel
+import Proofs.XdrSrc
 namespace Pydap.C05
 open Pydap Pydap.Xdr
 open Pydap.Stream (SR srRead absSR)
@@ -237,6 +238,266 @@ example : absSR (decStream exS [(XdrSpec.enc exS exSD).take 7, [], ((XdrSpec.enc
 example : ∃ dds0, ∀ i, i < dds0.length →
     ¬ splitPattern.isPrefixOf ((dds0 ++ splitPattern ++ encImpl exT exD).drop i) = true :=
   ⟨[32], by decide⟩
+
+/-! ### the source representation: how the values are HELD does not reach the wire
+
+`encImpl` speaks about values.  responses/dods.py sees an object: `_basetype` dispatches on `data.dtype.char`
+(`DAP2_response_dtypemap`), on `data.shape`, iterates the first axis, converts every block with
+`astype(wire dtype)` and sends `tobytes()`; strings are sent word by word, `str` and `bytes` by different branches.
+`Xdr.NpArr` (PydapModel/XdrSrc.lean) is the array as numpy holds it — dtype char (item width and signedness), byte
+order, characters per S/U item, shape, strides in bytes (any sign, 0 on broadcast axes: C, Fortran, strided,
+reversed, transposed, offset views alike), offset and the memory viewed — and `Xdr.encArr` is `_basetype` on it.
+`Holds a ty sh d`: the DDS declares `ty` for the dtype, the shape is `sh`, and indexing the array in logical order
+reads the data `d`.  **Domain** of the theorems: every dtype char of `NUMPY_TO_DAP2_TYPEMAP` (1/2/4/8-byte signed
+and unsigned integers, bool, float32, float64, S, U), both byte orders, every shape, strides, offset and buffer
+— as long as the values read are values of the declared DAP2 type (`WF`): automatic for items no wider than the
+wire type (`C05_rep_narrow_in_range`), a real restriction for the 8-byte integers `l q L Q`, which are declared
+Int32/UInt32 (`C05_rep_wide_wraps`), and for text outside printable ASCII (`C05_rep_text_outside_ascii`);
+float16, longdouble and object arrays have no DAP2 type at all (`C05_rep_unsupported_dtype`). -/
+
+/-- **any representation, the reference bytes**: whatever dtype char, byte order, strides, offset and memory
+    hold the data, `_basetype` emits the reference encoding of the data held -/
+theorem C05_representation_exact (a : NpArr) (ty : Ty) (sh : List Nat) (d : Data) (h : Holds a ty sh d)
+    (hwf : WF (.base ty sh) d = true) : encArr a = .ok (XdrSpec.enc (.base ty sh) d) := by
+  obtain ⟨hty, hsh, hd⟩ := h
+  subst hsh
+  exact encArr_eq_spec a ty d hty hd hwf
+
+/-- **representation independence**: two arrays that hold the same data of the same DAP2 type — in whatever item
+    width, byte order, memory order, view, `str` or `bytes` items — are encoded to the same bytes -/
+theorem C05_representation_independent (a b : NpArr) (ty : Ty) (sh : List Nat) (d : Data)
+    (ha : Holds a ty sh d) (hb : Holds b ty sh d) (hwf : WF (.base ty sh) d = true) :
+    encArr a = encArr b ∧ encArr a = .ok (XdrSpec.enc (.base ty sh) d) := by
+  rw [C05_representation_exact a ty sh d ha hwf, C05_representation_exact b ty sh d hb hwf]
+  exact ⟨rfl, rfl⟩
+
+/-- … inside any dataset: a tree of structures/grids whose leaves are arrays in any representation (`Src.arr`) or
+    members given at value level (`Src.val`: sequences), viewed as declaration `t` and data `d`, is encoded to the
+    reference bytes of `(t, d)`; two such trees with the same view to the same bytes -/
+theorem C05_representation_independent_dataset (s s' : Src) (t : Tmpl) (d : Data) (hs : s.view? = some (t, d))
+    (hs' : s'.view? = some (t, d)) (hwf : WF t d = true) :
+    encSrc s = encSrc s' ∧ encSrc s = .ok (XdrSpec.enc t d) := by
+  rw [encSrc_eq s t d hs hwf, encSrc_eq s' t d hs' hwf]
+  exact ⟨rfl, rfl⟩
+
+/-- **items no wider than the wire type are always in range**: for the dtype chars `b h i B H I ? f d`, whatever
+    bytes the memory holds, every item read is a value of the DAP2 type the DDS declares -/
+theorem C05_rep_narrow_in_range (a : NpArr) (ty : Ty) (hty : a.ty? = some ty) (hn : a.char.narrow = true)
+    (addr : Int) : ∃ v, readElem a addr = .num v ∧ wfVal ty (.num v) = true :=
+  readElem_in_range a ty hty hn addr
+
+/-- **64-bit integers outside 32 bits are NOT in the domain: they wrap silently**.  An int64 array holding
+    2^32 + 5 is declared Int32 and sent as the bytes of 5 — the same response as for an array that holds 5 (DAP2
+    has no 64-bit integer; `astype('>i4')` truncates).  Within 32 bits `l q L Q` arrays are covered by the
+    theorems above. -/
+theorem C05_rep_wide_wraps :
+    let a : NpArr := storeC .l false [1] [4294967301]
+    let b : NpArr := storeC .i true [1] [5]
+    a.ty? = some .int32 ∧ a.elems = [.num 4294967301] ∧ b.ty? = some .int32 ∧ b.elems = [.num 5] ∧
+    WF (.base .int32 [1]) (.array [.num 4294967301]) = false ∧
+    encArr a = .ok [0, 0, 0, 1, 0, 0, 0, 1, 0, 0, 0, 5] ∧ encArr b = .ok [0, 0, 0, 1, 0, 0, 0, 1, 0, 0, 0, 5] :=
+  ⟨by decide, by decide, by decide, by decide, by decide, by decide, by decide⟩
+
+/-- dtypes without a DAP2 type (float16, longdouble, object): `NUMPY_TO_DAP2_TYPEMAP[dtype.char]` raises before any
+    byte is sent (the handler answers with an Error document) -/
+theorem C05_rep_unsupported_dtype (a : NpArr) (h : a.char = .e ∨ a.char = .g ∨ a.char = .O) :
+    encArr a = .error .keyError := by
+  have e1 : tyOfNumpyChar "e" = none := by decide
+  have e2 : tyOfNumpyChar "g" = none := by decide
+  have e3 : tyOfNumpyChar "O" = none := by decide
+  unfold encArr
+  rcases h with h | h | h <;> simp [h, NChar.code, e1, e2, e3]
+
+/-- **text outside ASCII is NOT in the domain, and there the representation matters**: a `U` array holding "é"
+    raises `UnicodeEncodeError` after the length words went out (the stream is cut), an `S` array holding the UTF-8
+    bytes of the same text is sent as those two bytes -/
+theorem C05_rep_text_outside_ascii :
+    let u : NpArr := ⟨.U, false, 1, [1], [4], 0, [0xE9, 0, 0, 0]⟩
+    let s : NpArr := ⟨.S, false, 2, [1], [2], 0, [0xC3, 0xA9]⟩
+    u.ty? = some .string ∧ u.elems = [.ustr [0xE9]] ∧ valsOf? u.elems = none ∧ encArr u = .error .unicode ∧
+    s.ty? = some .string ∧ s.elems = [.bstr [0xC3, 0xA9]] ∧
+    encArr s = .ok [0, 0, 0, 1, 0, 0, 0, 2, 0xC3, 0xA9, 0, 0] := by
+  decide
+
+/-- **records of a sequence source** (the composite-record path of `_sequencetype`): a record whose cells hold
+    the values `vs` — as numpy scalars or 0-d arrays of any dtype char of the column's type, Python `int`/`float`/
+    `bool`, `str`, `numpy.str_`, or Python `bytes` (`if isinstance(value, (str, bytes)):`) — is sent as the flat
+    record of the values; two records holding the same values in different forms as the same bytes -/
+theorem C05_rep_record_independent (tys : List Ty) (cs cs' : List Cell) (vs : List Val)
+    (h : cellVals? cs = some vs) (h' : cellVals? cs' = some vs)
+    (hwf : WFs (tys.map fun ty => .base ty []) (vs.map Data.scalar) = true) :
+    encCellsFlat tys cs = encCellsFlat tys cs' ∧
+    encCellsFlat tys cs = .ok (flatRecord (tys.map fun ty => .base ty []) (vs.map Data.scalar)) := by
+  rw [encCellsFlat_of_vals tys cs vs h hwf, encCellsFlat_of_vals tys cs' vs h' hwf]
+  exact ⟨rfl, rfl⟩
+
+/-- **scalars, whatever form they are given in**: `BaseType(name, x)` turns a Python `int`/`float`/`bool`/`str`/`bytes`
+    or a numpy scalar into `np.array(x)` (`_set_data`); a 0-d array stays what it is (either byte order).  The 0-d
+    array `Cell.toArr` builds for the form (dtype char of the value, `S<max(len,1)>` / `U<max(len,1)>` items,
+    NUL padded) is sent as the reference encoding of the value -/
+theorem C05_rep_scalar_forms (big : Bool) (c : Cell) (ty : Ty) (v : Val) (hv : c.val? = some v) (hok : c.ok = true)
+    (hty : c.ty? = some ty) (hw : wfVal ty v = true) :
+    Holds (c.toArr big) ty [] (.scalar v) ∧ encArr (c.toArr big) = .ok (XdrSpec.enc (.base ty []) (.scalar v)) :=
+  ⟨toArr_data big c ty v hv hok hty hw, encArr_toArr big c ty v hv hok hty hw⟩
+
+/-- **records on the general path of `_sequencetype`** (taken when a column is a Byte or an inner sequence: the
+    record is assigned to a template structure — every value becomes `np.array(value)` — and `dods(struct)` runs
+    `_basetype` on each): whatever forms the cells have, the record is sent as the reference encoding of its values -/
+theorem C05_rep_record_general_path (tys : List Ty) (cs cs' : List (Bool × Cell)) (vs : List Val)
+    (h : cellVals? (cs.map (·.2)) = some vs) (h' : cellVals? (cs'.map (·.2)) = some vs)
+    (hok : ∀ c ∈ cs, c.2.ok = true) (hok' : ∀ c ∈ cs', c.2.ok = true)
+    (ht : cs.map (·.2.ty?) = tys.map some) (ht' : cs'.map (·.2.ty?) = tys.map some)
+    (hwf : WFs (tys.map fun ty => .base ty []) (vs.map Data.scalar) = true) :
+    encCellsGeneral cs = encCellsGeneral cs' ∧
+    encCellsGeneral cs = .ok (XdrSpec.encs (tys.map fun ty => .base ty []) (vs.map Data.scalar)) := by
+  rw [encCellsGeneral_of_vals tys cs vs h hok ht hwf, encCellsGeneral_of_vals tys cs' vs h' hok' ht' hwf]
+  exact ⟨rfl, rfl⟩
+
+/-- **whole sequences, rows in any forms**: a lazy (`IterData`) source whose records are given as cells, and a
+    numpy-backed sequence (`encSeqFields`: every field a strided view of the records, in its own dtype char and
+    byte order; `SequenceType.iterdata` delivers numpy scalars and decodes `S` items to `str`), are sent as the
+    reference encoding of the rows of values — flat or general path, whichever the column types select; two sources
+    holding the same rows as the same bytes -/
+theorem C05_rep_sequence_independent (tys : List Ty) (rows rows' : List (List (Bool × Cell))) (vss : List (List Val))
+    (h : rowsVals? rows = some vss) (h' : rowsVals? rows' = some vss)
+    (hok : ∀ r ∈ rows, ∀ c ∈ r, c.2.ok = true) (hok' : ∀ r ∈ rows', ∀ c ∈ r, c.2.ok = true)
+    (ht : ∀ r ∈ rows, r.map (·.2.ty?) = tys.map some) (ht' : ∀ r ∈ rows', r.map (·.2.ty?) = tys.map some)
+    (hwf : WF (.seq (tys.map fun ty => .base ty [])) (.rows (vss.map fun vs => .tuple (vs.map Data.scalar))) = true) :
+    encRowsCells tys rows = encRowsCells tys rows' ∧
+    encRowsCells tys rows = .ok (XdrSpec.enc (.seq (tys.map fun ty => .base ty []))
+      (.rows (vss.map fun vs => .tuple (vs.map Data.scalar)))) := by
+  simp only [WF, Bool.and_eq_true] at hwf
+  rw [encRowsCells_eq tys rows vss h hok ht hwf.1.2 hwf.2, encRowsCells_eq tys rows' vss h' hok' ht' hwf.1.2 hwf.2]
+  exact ⟨rfl, by simp [XdrSpec.enc]⟩
+
+/-- **for every value and every two representations** (the statement with the representation as a parameter):
+    `Rep` = dtype char (item width and signedness: any numeric char that maps to `ty` and can hold the values, e.g. int8 /
+    int16 for Int16, int32 / int64 / longlong for Int32, bool / uint8 for Byte), byte order, `step` ≥ 1 (the array is
+    every `step`-th item along the last axis of a larger C-contiguous buffer; 1 = contiguous), `pre` bytes of the buffer
+    before the first item (a view starting inside its base), arbitrary `fill` bytes around the items.  `Rep.build`
+    lays the values out accordingly; the bytes sent are the same for any two such representations and are the
+    reference encoding.  (Fortran order, reversed, transposed and first-axis-strided views: covered by
+    `C05_representation_independent`, which quantifies over all strides; not realised by this builder.) -/
+theorem C05_representation_independent_built (ty : Ty) (n : Nat) (sh : List Nat) (vs : List Int) (r1 r2 : Rep)
+    (h1 : tyOfNumpyChar r1.char.code = some ty) (h2 : tyOfNumpyChar r2.char.code = some ty)
+    (s1 : 1 ≤ r1.step) (s2 : 1 ≤ r2.step) (hlen : vs.length = prod (n :: sh))
+    (hv1 : ∀ v ∈ vs, r1.char.holds v = true) (hv2 : ∀ v ∈ vs, r2.char.holds v = true)
+    (hwf : WF (.base ty (n :: sh)) (.array (vs.map Val.num)) = true) :
+    encArr (r1.build (n :: sh) vs) = encArr (r2.build (n :: sh) vs) ∧
+    encArr (r1.build (n :: sh) vs) = .ok (XdrSpec.enc (.base ty (n :: sh)) (.array (vs.map Val.num))) := by
+  have hold : ∀ (r : Rep), tyOfNumpyChar r.char.code = some ty → 1 ≤ r.step → (∀ v ∈ vs, r.char.holds v = true) →
+      Holds (r.build (n :: sh) vs) ty (n :: sh) (.array (vs.map Val.num)) := by
+    intro r hty hs hv
+    refine ⟨hty, rfl, ?_⟩
+    unfold NpArr.data?
+    have hsh : (r.build (n :: sh) vs).shape = n :: sh := rfl
+    rw [hsh, build_elems r (n :: sh) vs hs hlen hv]
+    simp only [List.isEmpty_cons, Bool.false_eq_true, if_false]
+    rw [valsOf_nums]; rfl
+  exact C05_representation_independent _ _ ty (n :: sh) _ (hold r1 h1 s1 hv1) (hold r2 h2 s2 hv2) hwf
+
+/-- **every numeric representation exists**: the C-contiguous array `storeC` builds from in-range values in any
+    numeric dtype char of the table, either byte order and any shape holds exactly those values (so the theorems
+    above are not vacuous for any dtype char × byte order × shape) -/
+theorem C05_rep_store_holds (c : NChar) (big : Bool) (ty : Ty) (n : Nat) (sh : List Nat) (vs : List Int)
+    (hty : tyOfNumpyChar c.code = some ty) (hlen : vs.length = prod (n :: sh)) (hv : ∀ v ∈ vs, c.holds v = true) :
+    Holds (storeC c big (n :: sh) vs) ty (n :: sh) (.array (vs.map Val.num)) := by
+  refine ⟨hty, rfl, ?_⟩
+  unfold NpArr.data?
+  have hsh : (storeC c big (n :: sh) vs).shape = n :: sh := rfl
+  rw [hsh, storeC_elems c big (n :: sh) vs hlen hv]
+  simp only [List.isEmpty_cons, Bool.false_eq_true, if_false]
+  rw [valsOf_nums]; rfl
+
+/-! non-vacuity: the value [[1, -2, 3], [4, 5, -6]] (Int16) held as little-endian int16 in C order, as big-endian
+    int16 in Fortran order inside a larger buffer (offset 2), as int8 reversed along the last axis (negative stride) -/
+def exRepD : Data := .array [.num 1, .num (-2), .num 3, .num 4, .num 5, .num (-6)]
+def exRepC : NpArr := storeC .h false [2, 3] [1, -2, 3, 4, 5, -6]
+def exRepF : NpArr := ⟨.h, true, 0, [2, 3], [2, 4], 2, [9, 9, 0, 1, 0, 4, 0xFF, 0xFE, 0, 5, 0, 3, 0xFF, 0xFA, 9]⟩
+def exRepR : NpArr := ⟨.b, false, 0, [2, 3], [3, -1], 2, [3, 0xFE, 1, 0xFA, 5, 4]⟩
+example : Holds exRepC .int16 [2, 3] exRepD := ⟨by decide, by decide, by rfl⟩
+example : Holds exRepF .int16 [2, 3] exRepD := ⟨by decide, by decide, by rfl⟩
+example : Holds exRepR .int16 [2, 3] exRepD := ⟨by decide, by decide, by rfl⟩
+example : WF (.base .int16 [2, 3]) exRepD = true := by decide
+example : encArr exRepF = encArr exRepR :=
+  (C05_representation_independent exRepF exRepR .int16 [2, 3] exRepD ⟨by decide, by decide, by rfl⟩
+    ⟨by decide, by decide, by rfl⟩ (by decide)).1
+example : encArr exRepC = .ok [0, 0, 0, 6, 0, 0, 0, 6, 0, 0, 0, 1, 0xFF, 0xFF, 0xFF, 0xFE, 0, 0, 0, 3, 0, 0, 0, 4,
+    0, 0, 0, 5, 0xFF, 0xFF, 0xFF, 0xFA] := by decide
+/-- strings: ["ab", ""] as `S3` items (NUL padded) and as big-endian `U2` items; a scalar as a 0-d array -/
+def exRepS : NpArr := ⟨.S, false, 3, [2], [3], 0, [97, 98, 0, 0, 0, 0]⟩
+def exRepU : NpArr := ⟨.U, true, 2, [2], [8], 0, [0, 0, 0, 97, 0, 0, 0, 98, 0, 0, 0, 0, 0, 0, 0, 0]⟩
+example : Holds exRepS .string [2] (.array [.str [97, 98], .str []]) ∧
+    Holds exRepU .string [2] (.array [.str [97, 98], .str []]) :=
+  ⟨⟨by decide, by decide, by rfl⟩, ⟨by decide, by decide, by rfl⟩⟩
+example : encArr exRepS = encArr exRepU ∧ encArr exRepS = .ok [0, 0, 0, 2, 0, 0, 0, 2, 97, 98, 0, 0, 0, 0, 0, 0] := by
+  decide
+example : Holds (storeC .d true [] [4607182418800017408]) .float64 [] (.scalar (.num 4607182418800017408)) :=
+  ⟨by decide, by decide, by rfl⟩
+/-- [1, -2, 3] (Int16) as contiguous little-endian int16, and as every third item of an int8 buffer, the view
+    starting 5 bytes into its base and the gaps holding 0xEE -/
+example : encArr ((Rep.mk .h false 1 0 0).build [3] [1, -2, 3]) = encArr ((Rep.mk .b true 3 5 0xEE).build [3] [1, -2, 3]) :=
+  (C05_representation_independent_built .int16 3 [] [1, -2, 3] _ _ (by decide) (by decide) (by decide) (by decide)
+    (by decide) (by decide) (by decide) (by decide)).1
+example : ((Rep.mk .b true 3 5 0xEE).build [3] [1, -2, 3]).buf
+    = [0xEE, 0xEE, 0xEE, 0xEE, 0xEE, 1, 0xEE, 0xEE, 0xFE, 0xEE, 0xEE, 3, 0xEE, 0xEE] := by decide
+/-- int64 little-endian and int32 big-endian, values within 32 bits: both hold [7, -1] as Int32, same bytes -/
+example : encArr (storeC .l false [2] [7, -1]) = encArr (storeC .i true [2] [7, -1]) :=
+  (C05_representation_independent _ _ .int32 [2] _
+    (C05_rep_store_holds .l false .int32 2 [] [7, -1] (by decide) (by decide) (by decide))
+    (C05_rep_store_holds .i true .int32 2 [] [7, -1] (by decide) (by decide) (by decide)) (by decide)).1
+/-- a Python bool, a Python bytes and a big-endian float64 0-d array as scalars -/
+example : encArr ((Cell.num .bool 1).toArr false) = .ok [1, 0, 0, 0] ∧
+    encArr ((Cell.bstr [104, 105]).toArr false) = .ok [0, 0, 0, 2, 104, 105, 0, 0] ∧
+    encArr ((Cell.ustr [104, 105]).toArr true) = .ok [0, 0, 0, 2, 104, 105, 0, 0] :=
+  ⟨(C05_rep_scalar_forms false _ .byte (.num 1) (by decide) (by decide) (by decide) (by decide)).2,
+   (C05_rep_scalar_forms false _ .string (.str [104, 105]) (by decide) (by decide) (by decide) (by decide)).2,
+   (C05_rep_scalar_forms true _ .string (.str [104, 105]) (by decide) (by decide) (by decide) (by decide)).2⟩
+/-- a record (Byte, String) on the general path: (Python bool, `bytes`) and (uint8 scalar, `str`) -/
+example : encCellsGeneral [(false, .num .bool 1), (false, .bstr [97])]
+    = encCellsGeneral [(false, .num .B 1), (true, .ustr [97])] :=
+  (C05_rep_record_general_path [.byte, .string] _ _ [.num 1, .str [97]] (by decide) (by decide) (by decide)
+    (by decide) (by decide) (by decide) (by decide)).1
+example : ∃ a : NpArr, a.char = .h ∧ a.char.narrow = true ∧ a.ty? = some .int16 := ⟨exRepC, by decide⟩
+example : encArr { exRepC with char := .e } = .error .keyError := C05_rep_unsupported_dtype _ (Or.inl rfl)
+/-- a record (Int32, String, Float64) held as (Python int, `str`, numpy float64) and as (big-endian int32 0-d array,
+    Python `bytes`, Python float) -/
+example : encCellsFlat [.int32, .string, .float64] [.num .l (-2), .ustr [104, 105], .num .d 4607182418800017408]
+    = encCellsFlat [.int32, .string, .float64] [.num .i (-2), .bstr [104, 105], .num .d 4607182418800017408] :=
+  (C05_rep_record_independent _ _ _ [.num (-2), .str [104, 105], .num 4607182418800017408] (by decide) (by decide)
+    (by decide)).1
+/-- a numpy-backed sequence (UInt16 big-endian, `S2`) of two records of 4 bytes, and the same rows from a lazy
+    source as (Python-int-like uint16 scalar, `bytes`) cells: same bytes -/
+def exFields : List NpArr :=
+  [⟨.H, true, 0, [2], [4], 0, [0, 7, 97, 98, 1, 0, 99, 0]⟩, ⟨.S, false, 2, [2], [4], 2, [0, 7, 97, 98, 1, 0, 99, 0]⟩]
+example : recordsOf exFields 2 = some [[(false, .num .H 7), (false, .ustr [97, 98])],
+    [(false, .num .H 256), (false, .ustr [99])]] := by decide
+example : encSeqFields [.uint16, .string] exFields 2
+    = encRowsCells [.uint16, .string] [[(true, .num .H 7), (false, .bstr [97, 98])], [(false, .num .H 256), (false, .bstr [99])]] := by
+  have e : encSeqFields [.uint16, .string] exFields 2 = encRowsCells [.uint16, .string]
+      [[(false, .num .H 7), (false, .ustr [97, 98])], [(false, .num .H 256), (false, .ustr [99])]] := by
+    have hr : recordsOf exFields 2 = some [[(false, .num .H 7), (false, .ustr [97, 98])],
+        [(false, .num .H 256), (false, .ustr [99])]] := by decide
+    simp only [encSeqFields, hr]
+  rw [e]
+  exact (C05_rep_sequence_independent [.uint16, .string] _ _ [[.num 7, .str [97, 98]], [.num 256, .str [99]]]
+    (by decide) (by decide) (by decide) (by decide) (by decide) (by decide) (by decide)).1
+def exSrc1 : Src := .struct [.arr exRepC, .val (.seq [.base .byte []]) (.rows [.tuple [.scalar (.num 7)]]), .arr exRepS]
+def exSrc2 : Src := .struct [.arr exRepR, .val (.seq [.base .byte []]) (.rows [.tuple [.scalar (.num 7)]]), .arr exRepU]
+def exSrcT : Tmpl := .struct [.base .int16 [2, 3], .seq [.base .byte []], .base .string [2]]
+def exSrcD : Data := .tuple [exRepD, .rows [.tuple [.scalar (.num 7)]], .array [.str [97, 98], .str []]]
+example : exSrc1.view? = some (exSrcT, exSrcD) ∧ exSrc2.view? = some (exSrcT, exSrcD) := ⟨by rfl, by rfl⟩
+example : encSrc exSrc1 = encSrc exSrc2 :=
+  (C05_representation_independent_dataset exSrc1 exSrc2 exSrcT exSrcD (by rfl) (by rfl) (by decide)).1
+example : encArr exRepR = .ok (XdrSpec.enc (.base .int16 [2, 3]) exRepD) :=
+  C05_representation_exact exRepR .int16 [2, 3] exRepD ⟨by decide, by decide, by rfl⟩ (by decide)
+example : ∃ v, readElem exRepR 4 = .num v ∧ wfVal .int16 (.num v) = true :=
+  C05_rep_narrow_in_range exRepR .int16 (by decide) (by decide) 4
+/-- a 130-character string: longer than the placeholder width `|S128` the DDS parser declares for strings; the
+    decoder's result has no width (`numpy.array([...], "S")` is sized by the data) -/
+example : decImpl (.base .string [1]) (XdrSpec.enc (.base .string [1]) (.array [.str (List.replicate 130 120)]) ++ [9])
+    = .ok (.array [.str (List.replicate 130 120)], [9]) :=
+  C05_decoder_total (.base .string [1]) (.array [.str (List.replicate 130 120)]) [9] (by decide +kernel)
 
 /-! ### the tie by translation: the *source text* of the size and padding arithmetic computes the model
 
